@@ -18,6 +18,7 @@ import (
 	"path/filepath"
 	"regexp"
 	"runtime"
+	"slices"
 	"sort"
 	"strings"
 	"sync"
@@ -601,8 +602,15 @@ func (h *harness) leanFor(bc *batchCtx, oc *outcome) {
 		default:
 			fault = "idx"
 		}
-	case "psErr", "psExit":
+	case "psExit":
 		fault = fmt.Sprintf("ps:%d", t.fault.K)
+	case "psErr":
+		// a delete batch is processed in Go-map order: the k-th point-store call of THIS run may be a
+		// Get (cannot fail) although it was a Put/Delete in the reference run; then no fault fired
+		fault = fmt.Sprintf("ps:%d", t.fault.K)
+		if oc.rep != nil && oc.rep.Fired == "" {
+			fault = "none"
+		}
 	case "exitPre":
 		fault = "crashpre"
 	case "exitPost":
@@ -720,7 +728,7 @@ func main() {
 	}
 	nBatches, maxIns, nreps := 14, 5, 6
 	if thorough {
-		nBatches, maxIns, nreps = 24, 7, 16
+		nBatches, maxIns, nreps = 36, 7, 20
 	}
 	if *nb > 0 {
 		nBatches = *nb
@@ -844,7 +852,17 @@ func main() {
 				psMut = append(psMut, j)
 			}
 		}
-		for _, x := range pickKs(rng, len(psMut), want(4, 0), thorough) {
+		psSel := pickKs(rng, len(psMut), want(3, 0), thorough)
+		if !thorough {
+			// the last three mutating calls are the counter tail (pointCount, nextFreeNodeId,
+			// freeNodeIds): distinct code, always covered
+			for x := len(psMut) - 3; x < len(psMut); x++ {
+				if x >= 0 && !slices.Contains(psSel, x) {
+					psSel = append(psSel, x)
+				}
+			}
+		}
+		for _, x := range psSel {
 			add("base", bc.b, Fault{Kind: "psErr", K: psMut[x]}, 0)
 		}
 		for _, k := range pickKs(rng, len(ref.PS), want(3, 0), thorough) {
